@@ -44,7 +44,9 @@ def value_sources(work):
             I64_MAX, I64_MIN, I64_MIN + 1,
             0.0, -0.0, 1.5, -1.5, 1e308, -1e308, 5e-324, math.nan, math.inf, -math.inf, 255.5, 1e19, -1e19, 4294967296.5,
             Byte(0), Byte(1), Byte(127), Byte(128), Byte(255), Char("a"), Char("é"), Char(0x10FFFF), Char(0),
-            "", "s", "é", "{}", "{", "}", "{:", "{0", "{:>}", "{:999999999999999999999}", "{99999999999999999999}", "{:x}", "{:5b}",
+            "", "s", "é", "{}", "{", "}", "{:", "{0", "{:>}", "{:999999999999999999999}", "{99999999999999999999}",
+            "{18446744073709551615}", "{18446744073709551614}", "{18446744073709551616}", "{9223372036854775807}", "{9223372036854775808}",
+            "{4294967295}", "{4294967296}", "{18446744073709551615:>3}", "{0}{18446744073709551615}", "{:.18446744073709551615}", "{:x}", "{:5b}",
             "r", "w", "a", "x", "rw", "/", "/nonexistent/dir/file", "abc\ndef", "9" * 40, "1e400", "-0", "0x10", "  12  ",
             True, False, None,
             Arr([]), Arr([1]), Arr([1, "a", 2.5]), Arr([Byte(255), Byte(0)]), Arr([Char("a"), Char("b")]),
@@ -120,6 +122,16 @@ FILTER_PROGRAMS = [
     "@ true { let f = fn() { $1 }; puts(f()); }", "@ true { fn g() { return $2; } puts(g()); }",
     "let p = $0; puts(p); @ true", "puts($1);", "@ true { exit(3); }", "@ true { let a = []; loop { push(a, $0); if len(a) > 50 { break; } } }",
     "@ (fn() { true })()", "@ true { @ true { puts(1); } }", "@ end { @ end { } }", "@ end { } @ end { }",
+    # filters keep running on the VM that a failed prelude or a failed action left behind
+    "fn f() { f() } f(); @ true { }", "fn f() { f() } f(); @ true @ end { puts(NP); }", "fn f() { f() } @ true { f(); } @ end { puts(1); }",
+    "fn f() { f() } @ end { f(); }", "1 / 0; @ true { puts(NP); } @ end { puts(NP); }",
+    "fn f(n) { if n == 0 { 1 / 0 } else { f(n - 1) } } @ true { f(100); } @ end { puts(\"end\"); }",
+    "fn f(n) { if n == 0 { 1 / 0 } else { f(n - 1) } } f(4000); @ true @ end { let z = 3; puts(z); }",
+    "fn f(n) { let a = 1; let b = 2; let c = 3; if n == 0 { [1][5] } else { f(n - 1) + a + b + c } } f(800); @ true { let x = 1; let y = 2; puts(x + y); }",
+    "let a = [1, 2, 3]; fn g() { a[9] } @ true { let x = 1; let y = 2; g(); } @ end { let z = 3; puts(z); }",
+    "fn f(n) { 1 + f(n + 1) } @ NP == 2 { f(0); } @ true { puts(NP); } @ end { puts(\"end \", NP); }",
+    "fn deep(n) { if n == 0 { 0 } else { deep(n - 1) } } deep(4090); @ true { deep(4090); } @ end { deep(4094); deep(4095); deep(4096); }",
+    "let big = 1; fn f() { f() } f(); @ true { let l1 = 1; let l2 = 2; let l3 = 3; let l4 = 4; puts(l1 + l4); }",
 ]
 
 
